@@ -242,15 +242,25 @@ def expand_atoms(fa: FuncAnalysis, atoms: List[Tuple[ast.AST, bool]], depth: int
     while work and depth >= 0:
         nxt = []
         for a, pol in work:
-            key = (ast.dump(a), pol)
+            key = (ast.dump(a), pol, id(a) if isinstance(a, ast.Name) else 0)  # a flag re-assigned from itself reads differently at each place
             if key in seen:
                 continue
             seen.add(key)
             # boolean flag variable with a single definition in this function
             if isinstance(a, ast.Name) and a.id in fa.locals:
                 defs = [n for n in _own(fa.fi) if isinstance(n, ast.Assign) and len(n.targets) == 1 and isinstance(n.targets[0], ast.Name) and n.targets[0].id == a.id]
-                if len(defs) == 1 and not isinstance(defs[0].value, ast.Constant):
-                    new = facts_true(defs[0].value) if pol else facts_false(defs[0].value)
+                value = None
+                if len(defs) == 1:
+                    value = defs[0].value
+                elif len(defs) > 1 and fa.cfg.has_node(a):
+                    # several assignments (flag = A; flag = flag or B): the one that reaches this test
+                    rd = fa._rd_in.get(fa.cfg.node_of(a), {}).get(a.id)
+                    if rd is not None and len(rd) == 1:
+                        d0 = next(iter(rd))
+                        if d0.kind == "assign" and d0.path == () and isinstance(d0.payload, ast.AST) and fa.cfg.has_node(d0.payload):
+                            value = d0.payload
+                if value is not None and not isinstance(value, ast.Constant):
+                    new = facts_true(value) if pol else facts_false(value)
                     new = [norm_atom(x, p) for x, p in new]
                     out += new
                     nxt += new
